@@ -94,8 +94,8 @@ pub proof fn axiom_max_pat(d: &DFA, s: Seq<u8>)
 }
 
 impl<'h> Input<'h> {
-    pub fn new(h: &'h str) -> (r: Input<'h>) { Input { hay: h, anchored: Anchored::No } }
-    pub fn anchored(self, a: Anchored) -> (r: Input<'h>) { Input { hay: self.hay, anchored: a } }
+    pub fn new(h: &'h str) -> (r: Input<'h>) ensures r.anchored is No { Input { hay: h, anchored: Anchored::No } }
+    pub fn anchored(self, a: Anchored) -> (r: Input<'h>) ensures r.anchored == a { Input { hay: self.hay, anchored: a } }
 }
 impl PatternID {
     pub fn as_usize(&self) -> usize { self.p }
@@ -117,7 +117,8 @@ impl DFA {
     /// start of an anchored search; with the default configuration the lazy DFA never gives up (no error)
     #[verifier::external_body]
     pub fn start_state_forward(&self, cache: &mut Cache, input: &Input<'_>) -> (r: Result<LazyStateID, StartError>)
-        requires dfa_std(self),
+        // the contract speaks about matches that START at the current offset: an anchored search
+        requires dfa_std(self), input.anchored is Yes,
         ensures r is Ok, valid(final(cache), r->Ok_0), seen(final(cache), r->Ok_0) == Seq::<u8>::empty(), !sid_match(r->Ok_0),
     { unimplemented!() }
 
